@@ -68,6 +68,16 @@ def switch_subject(fn, b):
     sd = fn.single_def(l0)
     if sd and sd[0] == "assign" and sd[3]["k"] == "discr":
         pl = fn.canon(P(sd[3]["place"]))
+        # `match (a, b) { (Some(x), Some(y)) => .. }`: the discriminant read is that of the tuple's component
+        for _ in range(3):
+            if pl[1] and pl[1][0][0] == "field":
+                td = fn.single_def(pl[0])
+                if td and td[0] == "assign" and td[3]["k"] == "aggregate" and td[3].get("akind") == "tuple" and pl[1][0][1] < len(td[3]["ops"]):
+                    cp = op_place(td[3]["ops"][pl[1][0][1]])
+                    if cp is not None:
+                        pl = fn.canon((cp[0], tuple(cp[1]) + tuple(pl[1][1:])))
+                        continue
+            break
         vs = sd[3].get("variants")
         vmap = {v[0]: v[1] for v in vs} if vs else None
         root = fn.copy_root(pl[0]) if not pl[1] else pl[0]
